@@ -163,6 +163,13 @@ pub fn judge(case: &CliCase, expected: &Option<String>, out: &CliOut, ctr: &mut 
     if hard(&f.stdout_write_err) || hard(&f.stderr_write_err) {
         bump(ctr, "probe.std_stream_write_failed");
         add(ctr, &format!("probe.std_stream_write_failed.exit_{}", out.exit.unwrap_or(-1)), 1);
+        if hard(&f.stdout_write_err) && out.exit == Some(0) && matches!(case.output, OutState::Stdout) {
+            let mut w = expected.clone().unwrap_or_default().into_bytes();
+            w.push(b'\n');
+            if expected.is_none() || out.stdout != w {
+                return v("exit_0_without_output:stdout_error_swallowed", "a write to stdout failed, stdout does not hold the rendering, and the exit status is 0".into());
+            }
+        }
         return None;
     }
     let input_fault = expected.is_none() || hard(&f.input_open_err) || hard(&f.read_err);
@@ -201,10 +208,14 @@ pub fn judge(case: &CliCase, expected: &Option<String>, out: &CliOut, ctr: &mut 
         }
         return None;
     }
-    // outcomes the statement is silent about: recorded, not judged
+    // a write to the created output file failed hard: how the program fails is not specified (recorded as a
+    // probe), but it must not claim success: exit status 0 means the output was emitted exactly
     if hard(&f.out_write_err) {
         bump(ctr, "probe.write_to_output_failed_after_create");
         add(ctr, &format!("probe.write_failed.exit_{}", out.exit.unwrap_or(-1)), 1);
+        if out.exit == Some(0) && out.after.bytes != expected.as_ref().unwrap().as_bytes() {
+            return v("exit_0_without_output:write_error_swallowed", "a write to the output file failed, the file does not hold the rendering, and the exit status is 0".into());
+        }
         return None;
     }
     bump(ctr, "path.success");
@@ -381,7 +392,7 @@ impl Prop for C12 {
     fn assumptions(&self) -> Vec<&'static str> {
         vec![
             "glibc dynamic linking so that LD_PRELOAD interposes (liveness asserted per run: the shim must have served the entropy request)",
-            "not judged because the statement is silent: a write failure after the output file was created, failures of stdout/stderr themselves (recorded as probes)",
+            "when a write to the created output file or to stdout fails hard, only 'exit status 0 implies the output was emitted exactly' is judged; how the program fails then (status, stderr) is recorded as a probe, as are failures of stderr itself",
             "a C05-only regression cannot alarm here: inputs whose in-process rendering differs across 3 entropies are discarded and counted",
         ]
     }
